@@ -21,6 +21,68 @@ use std::io::BufReader;
 const TOK: [u8; 9] = [b'>', b'@', b'+', b' ', b'\t', b'\r', b'\n', b'A', b'!'];
 const CAPS: [usize; 6] = [1, 2, 3, 5, 16, 8192];
 
+// ------------------------------------------------------------ Err(Interrupted) steps of the environment
+// A read()/write() call may fail with ErrorKind::Interrupted at any time; the contract is "no-op, retry".
+// Pattern k (cyclic over the calls; 1 = this call is interrupted): 0 none, 1 before every call incl. the
+// first, 2 twice in a row, 3 every second call, 4 a later pair.
+const INTR_PATTERNS: [&[u8]; 5] = [&[], &[1, 0], &[1, 1, 0], &[0, 1], &[0, 0, 1, 1, 0]];
+thread_local! { static INTR: std::cell::Cell<usize> = std::cell::Cell::new(0); }
+/// choose the interruption pattern of the NEXT event (one-shot)
+fn set_intr(k: usize) {
+    INTR.with(|c| c.set(k % INTR_PATTERNS.len()));
+}
+fn take_intr(log: &mut Log, sniffing: bool, writing: bool) -> usize {
+    let k = INTR.with(|c| c.replace(0));
+    if k != 0 {
+        log.oblige(if writing { "sink_interrupted_writes" } else { "io_interrupted_reads" });
+        if !writing && (k == 1 || k == 2) {
+            log.oblige("io_interrupted_before_first_byte");
+            if sniffing {
+                log.oblige("sniffer_first_read_interrupted");
+            }
+        }
+        if k == 2 || k == 4 {
+            log.oblige("io_interrupted_twice_in_a_row");
+        }
+    }
+    k
+}
+fn interrupted() -> std::io::Error {
+    std::io::Error::new(std::io::ErrorKind::Interrupted, "interrupted (scripted)")
+}
+
+struct Intr<R> {
+    inner: R,
+    pat: &'static [u8],
+    i: usize,
+}
+impl<R> Intr<R> {
+    fn new(inner: R, k: usize) -> Self {
+        Intr { inner, pat: INTR_PATTERNS[k], i: 0 }
+    }
+    fn hit(&mut self) -> bool {
+        if self.pat.is_empty() {
+            return false;
+        }
+        let x = self.pat[self.i % self.pat.len()];
+        self.i += 1;
+        x == 1
+    }
+}
+impl<R: std::io::Read> std::io::Read for Intr<R> {
+    fn read(&mut self, buf: &mut [u8]) -> std::io::Result<usize> {
+        if self.hit() {
+            return Err(interrupted());
+        }
+        self.inner.read(buf)
+    }
+}
+impl<R: std::io::Seek> std::io::Seek for Intr<R> {
+    fn seek(&mut self, p: std::io::SeekFrom) -> std::io::Result<u64> {
+        self.inner.seek(p)
+    }
+}
+
 #[derive(Clone)]
 struct Rec {
     id: Vec<u8>,
@@ -68,9 +130,9 @@ fn fq_kind(e: &fastq::Error) -> &'static str {
 
 /// Drive one parser over `data` through BufReader(cap) over SchedReader(sched).
 /// Returns (items, variant kinds, capped).
-fn parse(p: &str, how: &str, data: &[u8], cap: usize, sched: &[usize]) -> (Vec<Value>, Vec<Value>, bool) {
+fn parse(p: &str, how: &str, data: &[u8], cap: usize, sched: &[usize], intr: usize) -> (Vec<Value>, Vec<Value>, bool) {
     let limit = data.len() + 3;
-    let src = SchedReader::new(data.to_vec(), sched.to_vec());
+    let src = Intr::new(SchedReader::new(data.to_vec(), sched.to_vec()), intr);
     let mut items = vec![];
     let mut vk = vec![];
     let mut capped = false;
@@ -194,16 +256,18 @@ struct Lay {
 const NOLAY: Lay = Lay { lay: 0, wrap: 0, crlf: 0, cut: -1 };
 
 fn parse_event(log: &mut Log, p: &str, how: &str, data: &[u8], cap: usize, sched: &[usize], lay: &Lay) -> Value {
-    let args = json!({"p": p, "how": how, "b": bytes(data), "cap": cap, "sched": usizes(sched),
+    let intr = take_intr(log, p == "either", false);
+    let args = json!({"p": p, "how": how, "b": bytes(data), "cap": cap, "sched": usizes(sched), "intr": intr,
                       "lay": lay.lay, "wrap": lay.wrap, "crlf": lay.crlf, "cut": lay.cut});
     log.call("parse", args, || {
-        let (items, vk, capped) = parse(p, how, data, cap, sched);
+        let (items, vk, capped) = parse(p, how, data, cap, sched, intr);
         json!({"items": items, "vk": vk, "capped": if capped {1} else {0}})
     })
 }
 
 fn sniff_event(log: &mut Log, how: &str, data: &[u8]) {
-    log.call("sniff", json!({"how": how, "b": bytes(data)}), || {
+    let intr = take_intr(log, true, false);
+    log.call("sniff", json!({"how": how, "b": bytes(data), "intr": intr}), || {
         let classify = |r: std::io::Result<fastx::Kind>| match r {
             Ok(fastx::Kind::FASTA) => "fasta",
             Ok(fastx::Kind::FASTQ) => "fastq",
@@ -213,16 +277,16 @@ fn sniff_event(log: &mut Log, how: &str, data: &[u8]) {
         };
         match how {
             "kind" => {
-                let mut it = fastx::EitherRecords::new(BufReader::new(SchedReader::new(data.to_vec(), vec![1])));
+                let mut it = fastx::EitherRecords::new(BufReader::new(Intr::new(SchedReader::new(data.to_vec(), vec![1]), intr)));
                 json!({"kind": classify(it.kind()), "pos": 0})
             }
             "seek" => {
-                let mut src = SchedReader::new(data.to_vec(), vec![]);
+                let mut src = Intr::new(SchedReader::new(data.to_vec(), vec![]), intr);
                 let k = classify(fastx::get_kind_seek(&mut src));
-                json!({"kind": k, "pos": src.pos})
+                json!({"kind": k, "pos": src.inner.pos})
             }
             _ => {
-                let src = SchedReader::new(data.to_vec(), vec![]);
+                let src = Intr::new(SchedReader::new(data.to_vec(), vec![]), intr);
                 let k = match fastx::get_kind(src) {
                     Ok((_, k)) => classify(Ok(k)),
                     Err(e) => classify(Err(e)),
@@ -269,7 +333,8 @@ fn collect_fastq<R: std::io::Read>(src: R, limit: usize) -> (Vec<Value>, bool) {
 /// result: kind, kind2 (second sniff), pos / pos2 (position of the source after the first / second sniff),
 /// items = what the selected reader yields afterwards.
 fn sniff_at_event(log: &mut Log, how: &str, data: &[u8], off: usize, lay: &Lay) -> Value {
-    let args = json!({"how": how, "b": bytes(data), "off": off,
+    let intr = take_intr(log, true, false);
+    let args = json!({"how": how, "b": bytes(data), "off": off, "intr": intr,
                       "lay": lay.lay, "wrap": lay.wrap, "crlf": lay.crlf, "cut": lay.cut});
     log.call("sniff_at", args, || {
         use std::io::{Read, Seek, SeekFrom};
@@ -281,7 +346,7 @@ fn sniff_at_event(log: &mut Log, how: &str, data: &[u8], off: usize, lay: &Lay) 
             Err(_) => "io",
         };
         let limit = data.len() + 3;
-        let mut src = SchedReader::new(data.to_vec(), vec![]);
+        let mut src = Intr::new(SchedReader::new(data.to_vec(), vec![]), intr);
         if how == "read_then_seek" {
             let mut sink = vec![0u8; off];
             src.read_exact(&mut sink).unwrap();
@@ -304,9 +369,9 @@ fn sniff_at_event(log: &mut Log, how: &str, data: &[u8], off: usize, lay: &Lay) 
                           "capped": if capped {1} else {0}});
         }
         let k = classify(fastx::get_kind_seek(&mut src));
-        let pos = src.pos;
+        let pos = src.inner.pos;
         let k2 = classify(fastx::get_kind_seek(&mut src));
-        let pos2 = src.pos;
+        let pos2 = src.inner.pos;
         let (items, capped) = match k2 {
             "fasta" => collect_fasta(src, limit),
             "fastq" => collect_fastq(src, limit),
@@ -359,9 +424,18 @@ fn s(b: &[u8]) -> &str {
 struct ShortSink {
     data: Vec<u8>,
     max: usize,
+    pat: &'static [u8],
+    i: usize,
 }
 impl std::io::Write for ShortSink {
     fn write(&mut self, buf: &[u8]) -> std::io::Result<usize> {
+        if !self.pat.is_empty() {
+            let x = self.pat[self.i % self.pat.len()];
+            self.i += 1;
+            if x == 1 {
+                return Err(interrupted());
+            }
+        }
         let n = buf.len().min(self.max);
         self.data.extend_from_slice(&buf[..n]);
         Ok(n)
@@ -372,8 +446,9 @@ impl std::io::Write for ShortSink {
 }
 
 /// wcap = 0: Writer::new (8 KiB BufWriter), else Writer::with_capacity(wcap); sink_max = 0: unlimited writes.
-fn real_write(kind: &str, recs: &[Rec], wrap: usize, via_record: bool, wcap: usize, sink_max: usize) -> Vec<u8> {
-    let mut sink = ShortSink { data: vec![], max: if sink_max == 0 { usize::MAX } else { sink_max } };
+fn real_write(kind: &str, recs: &[Rec], wrap: usize, via_record: bool, wcap: usize, sink_max: usize, intr: usize) -> Vec<u8> {
+    let mut sink = ShortSink { data: vec![], max: if sink_max == 0 { usize::MAX } else { sink_max },
+                               pat: INTR_PATTERNS[intr], i: 0 };
     if kind == "fasta" {
         let mut w = if wcap > 0 { fasta::Writer::with_capacity(wcap, &mut sink) } else { fasta::Writer::new(&mut sink) };
         if wrap > 0 {
@@ -404,9 +479,11 @@ fn real_write(kind: &str, recs: &[Rec], wrap: usize, via_record: bool, wcap: usi
 }
 
 fn write_event(log: &mut Log, kind: &str, recs: &[Rec], wrap: usize, via_record: bool, wcap: usize, sink: usize) -> Vec<u8> {
+    let intr = take_intr(log, false, true);
     let mut written: Vec<u8> = vec![];
-    log.call("write", json!({"wrap": wrap, "via_record": if via_record {1} else {0}, "wcap": wcap, "sink": sink}), || {
-        written = real_write(kind, recs, wrap, via_record, wcap, sink);
+    let args = json!({"wrap": wrap, "via_record": if via_record {1} else {0}, "wcap": wcap, "sink": sink, "intr": intr});
+    log.call("write", args, || {
+        written = real_write(kind, recs, wrap, via_record, wcap, sink, intr);
         json!({"b": bytes(&written)})
     });
     written
@@ -615,14 +692,17 @@ pub fn drive(log: &mut Log) {
                     _ => vec![],
                 };
                 let how = if (n + pi) % 5 == 0 { "read" } else { "iter" };
+                set_intr(n / 3 + pi);
                 let r = parse_event(log, p, how, b, cap, &sched, &NOLAY);
                 note_items(log, &r);
             }
             if n % 9 == 0 {
+                set_intr(n / 9);
                 sniff_event(log, ["kind", "seek", "get_kind"][(n / 9) % 3], b);
             }
             if n % 5 == 0 {
                 let off = (n / 5) % (b.len() + 1);
+                set_intr(n / 5 + 1);
                 sniff_at_event(log, ["seek", "get_kind", "read_then_seek"][(n / 5) % 3], b, off, &NOLAY);
             }
         }
@@ -671,9 +751,11 @@ pub fn drive(log: &mut Log) {
             }
             let cap = CAPS[n % CAPS.len()];
             let sched: Vec<usize> = if n % 2 == 0 { vec![] } else { vec![1, 2] };
+            set_intr(n);
             let r = parse_event(log, "fastq", "iter", &b, cap, &sched, &NOLAY);
             note_items(log, &r);
             let p2 = if n % 2 == 0 { "fasta" } else { "either" };
+            set_intr(n / 2);
             let r = parse_event(log, p2, "iter", &b, cap, &sched, &NOLAY);
             note_items(log, &r);
         }
@@ -701,6 +783,7 @@ pub fn drive(log: &mut Log) {
                 let cap = *rng.pick(&CAPS);
                 let which = rng.next();
                 let sched = gen_sched(&mut rng, &b, which, log);
+                set_intr(rng.below(5) as usize);
                 let r = parse_event(log, p, "iter", &b, cap, &sched, &NOLAY);
                 note_items(log, &r);
             }
@@ -777,6 +860,7 @@ pub fn drive(log: &mut Log) {
         for (sidx, &(layk, wrap, crlf, wcap, sink)) in streams.iter().enumerate() {
             let b: Vec<u8> = if layk == 1 {
                 let via_record = rng.coin();
+                set_intr(sidx + i as usize);
                 let written = write_event(log, kind, &recs, wrap, via_record, wcap, sink);
                 if i % 3 == 0 && sidx == 0 {
                     log.call("display", json!({}), || json!({"b": bytes(&display(kind, &recs))}));
@@ -814,6 +898,7 @@ pub fn drive(log: &mut Log) {
                 let p = parsers[(v + sidx) % 2];
                 let how = if v == 3 { "read" } else { "iter" };
                 let lay = Lay { lay: layk, wrap: wrap as i64, crlf: crlf as i64, cut: -1 };
+                set_intr(v + sidx + i as usize);
                 let r = parse_event(log, p, how, &b, cap, &sched, &lay);
                 note_items(log, &r);
                 if p == "either" {
@@ -851,6 +936,7 @@ pub fn drive(log: &mut Log) {
                 let sched: Vec<usize> = if ci % 2 == 0 { vec![] } else { vec![3, 1] };
                 let lay = Lay { lay: layk, wrap: wrap as i64, crlf: crlf as i64, cut: c as i64 };
                 let p = if ci % 3 == 2 { "either" } else { kind };
+                set_intr(ci);
                 let r = parse_event(log, p, "iter", &b[..c], cap, &sched, &lay);
                 note_items(log, &r);
                 log.oblige("cut");
@@ -878,6 +964,7 @@ pub fn drive(log: &mut Log) {
                 b.extend_from_slice(&section);
                 let lay = Lay { lay: 2, wrap: wrap as i64, crlf: crlf as i64, cut: -1 };
                 let how = hows[(v + i as usize) % 3];
+                set_intr(v + 1 + i as usize);
                 let r = sniff_at_event(log, how, &b, prefix.len(), &lay);
                 note_items(log, &r);
                 log.oblige("sniff_at_nonzero_offset");
@@ -917,11 +1004,14 @@ pub fn drive(log: &mut Log) {
         }
         let sink = [1usize, 7, 4096][(i as usize / 2) % 3];
         let wrap = if kind == "fasta" && i % 4 == 1 { 9000 } else { 0 };
+        set_intr(i as usize);
         let written = write_event(log, kind, &recs, wrap, i % 3 == 0, 0, sink);
         log.oblige("writer_default_capacity_exceeded_short_sink");
         let lay = Lay { lay: 1, wrap: wrap as i64, crlf: 0, cut: -1 };
+        set_intr(i as usize + 1);
         let r = parse_event(log, kind, "iter", &written, 8192, &[], &lay);
         note_items(log, &r);
+        set_intr(i as usize + 2);
         let r = parse_event(log, "either", "iter", &written, 16, &[700, 3], &lay);
         note_items(log, &r);
     }
@@ -966,11 +1056,38 @@ pub fn drive(log: &mut Log) {
                 let cap = *rng.pick(&CAPS);
                 let which = rng.next();
                 let sched = gen_sched(&mut rng, &b, which, log);
+                set_intr(rng.below(5) as usize);
                 let r = parse_event(log, p, "iter", &b, cap, &sched, &NOLAY);
                 note_items(log, &r);
             }
         }
         log.oblige("damaged");
+    }
+
+    // ---------------- (d00) error path: a first line that is no header, 35..100 bytes of valid UTF-8 with a
+    // 2-, 3- and 4-byte character straddling every byte offset (error messages that quote the line must not
+    // cut it inside a character)
+    let (klo, khi) = if thorough { (20usize, 100usize) } else { (30, 64) };
+    for (ci, ch) in ['\u{00E9}', '\u{20AC}', '\u{1F600}'].iter().enumerate() {
+        case += 1;
+        if !log.mine(case) {
+            continue;
+        }
+        if !log.begin("errctx", raw_cfg("arb")) {
+            continue;
+        }
+        for k in klo..=khi {
+            let mut line = "x".repeat(k);
+            line.push(*ch);
+            line.push_str(&"y".repeat(6 + (k + ci) % 30));
+            line.push_str("\n>id\nACGT\n");
+            let b = line.as_bytes();
+            for (pi, p) in ["fasta", "fastq", "either"].iter().enumerate() {
+                let r = parse_event(log, p, if (k + pi) % 4 == 0 { "read" } else { "iter" }, b, CAPS[(k + pi) % CAPS.len()], &[], &NOLAY);
+                note_items(log, &r);
+            }
+        }
+        log.oblige("error_path_multibyte_at_every_offset");
     }
 
     // ---------------- (d0) multi-byte Unicode white space as the first white space of a header
@@ -1041,11 +1158,14 @@ pub fn drive(log: &mut Log) {
                 let cap = *rng.pick(&CAPS);
                 let which = rng.next();
                 let sched = gen_sched(&mut rng, &b, which, log);
+                set_intr(rng.below(5) as usize);
                 let r = parse_event(log, p, if rng.chance(1, 4) { "read" } else { "iter" }, &b, cap, &sched, &NOLAY);
                 note_items(log, &r);
             }
+            set_intr(rng.below(5) as usize);
             sniff_event(log, ["kind", "seek", "get_kind"][rng.below(3) as usize], &b);
             let off = rng.below(b.len() as u64 + 1) as usize;
+            set_intr(rng.below(5) as usize);
             sniff_at_event(log, ["seek", "get_kind", "read_then_seek"][rng.below(3) as usize], &b, off, &NOLAY);
         }
     }
